@@ -159,6 +159,23 @@ fn main() {
     let short = Elf::new(image(Some(0x1a1), Some(0x1a1), 5), 0).unwrap();
     show("PT_LOAD filesz 0x1a1 (file is 0x1a0 bytes): memory()", || short.memory().map(|m| m.sections().len()).map_err(|e| format!("{}", e)));
 
+    println!("-- further malformed inputs that the contracts exclude by precondition");
+    // st_name of `main` (dynsym 1, at file offset 0x130 + 24) points outside the 11-byte .dynstr
+    let mut img = image(None, None, 5);
+    img[0x130 + 24..0x130 + 28].copy_from_slice(&0x1000u32.to_le_bytes());
+    let badname = Elf::new(img, 0).unwrap();
+    show("st_name 0x1000 outside .dynstr (11 bytes): function_entries()", || badname.function_entries().map(|v| v.len()).map_err(|e| format!("{}", e)));
+    show("st_name 0x1000 outside .dynstr (11 bytes): symbols()", || Loader::symbols(&badname).len());
+    // p_offset + p_filesz wraps around 2^64
+    let mut img = image(None, None, 5);
+    img[64 + 8..64 + 16].copy_from_slice(&(u64::MAX - 1).to_le_bytes());
+    show("PT_LOAD p_offset 2^64-2, p_filesz 0x1a0: Elf::new + memory()", || {
+        Elf::new(img.clone(), 0).map_err(|e| format!("{}", e)).and_then(|e| e.memory().map(|m| m.sections().len()).map_err(|e| format!("{}", e)))
+    });
+    // p_vaddr + base wraps around 2^64
+    let high = Elf::new(image(None, None, 5), u64::MAX - 0x1000).unwrap();
+    show("base 2^64-0x1001 (p_vaddr + base wraps): memory()", || high.memory().map(|m| m.sections().len()).map_err(|e| format!("{}", e)));
+
     println!("-- user entries");
     let mut eu = Elf::new(image(None, None, 5), B).unwrap();
     eu.add_user_function(0x400180);
